@@ -127,50 +127,35 @@ theorem strCell_isNone (site cls : String) (r : TRow) (key : String) (v : Option
   · cases h
 
 theorem tableListStep_noInt (sh : Sheets) (r : TRow) (ln : Str) (f : Bool) (st : St) (tl : TL)
-    (hc : cellIsDict r "control" = true)
-    (h : (tl == .pending && !f && !sh.choices.contains ln) = false) :
+    (hc : cellIsDict r "control" = true) :
     NoInt (tableListStep sh r ln f st tl) := by
   have hc' : (!cellIsDict r "control") = false := by rw [hc]; rfl
   cases tl with
   | off => exact noInt_ok _
   | named l0 => exact noInt_rej _ _ _ (noInt_crash _ _ _ _ hc' (noInt_ok _))
-  | pending =>
-    unfold tableListStep
-    cases f with
-    | true =>
-      intro c s h'
-      simp [rejectIf, bind, Except.bind] at h'
-    | false =>
-      refine noInt_rej _ _ _ (noInt_crash _ _ _ _ ?_ (noInt_crash _ _ _ _ hc' (noInt_ok _)))
-      simpa using h
+  | pending => exact noInt_rej _ _ _ (noInt_rej _ _ _ (noInt_crash _ _ _ _ hc' (noInt_ok _)))
 
 theorem selectRow_noInt (env : Env) (sh : Sheets) (r : TRow) (params sel ln : Str) (other : Bool) (st : St)
     (hc : cellIsDict r "control" = true)
     (h2 : ((lookup (k "choice_filter") r).isNone && !(env.randomize params || env.fileExt ln || env.hasRef ln)
-            && !sh.choices.contains ln) = false)
-    (h3 : (st.tableList == .pending && (lookup (k "choice_filter") r).isNone && !sh.choices.contains ln) = false) :
+            && !sh.choices.contains ln) = false) :
     NoInt (selectRow env sh r params sel ln other st) := by
   unfold selectRow
   have e : (!(lookup (k "choice_filter") r).isSome) = (lookup (k "choice_filter") r).isNone := by
     cases lookup (k "choice_filter") r <;> rfl
   refine noInt_rej _ _ _ (noInt_rej _ _ _ (noInt_rej _ _ _ (noInt_rej _ _ _ (noInt_rej _ _ _ (noInt_rej _ _ _
-    (noInt_rej _ _ _ (noInt_rej _ _ _ (noInt_crash _ _ _ _ ?_ (tableListStep_noInt sh r ln _ st _ hc ?_)))))))))
-  · rw [e]; exact h2
-  · rw [e]; exact h3
+    (noInt_rej _ _ _ (noInt_rej _ _ _ (noInt_crash _ _ _ _ ?_ (tableListStep_noInt sh r ln _ st _ hc)))))))))
+  rw [e]; exact h2
 
-theorem osmRow_noInt (sh : Sheets) (st : St) (tags : Option (List Str)) (oln : Option Str)
-    (h : (match oln, tags with | some ln, some ts => ts.contains ln | _, _ => true) = true) :
+/-- since 6eb0107 the osm branch has no partial operation left -/
+theorem osmRow_noInt (sh : Sheets) (st : St) (tags : Option (List Str)) (oln : Option Str) :
     NoInt (osmRow sh st tags oln) := by
   cases tags with
   | none => cases oln <;> exact noInt_ok _
   | some ts =>
     cases oln with
     | none => exact noInt_ok _
-    | some ln =>
-      unfold osmRow
-      refine noInt_crash _ _ _ _ ?_ (noInt_ok _)
-      simp only [] at h
-      rw [h]; rfl
+    | some ln => exact noInt_rej _ _ _ (noInt_ok _)
 
 theorem questionRow_noInt (env : Env) (r : TRow) (t params : Str) (st : St)
     (h1 : cellIsDict r "control" = true) (h3 : cellIsStr r "trigger" = true) :
@@ -220,13 +205,12 @@ theorem shapeOk_parts (r : TRow) (h : shapeOk r = true) :
 
 theorem namedRow_noInt (env : Env) (sh : Sheets) (r : TRow) (t : Str) (st : St)
     (hs : shapeOk r = true) (ht : lookup (k "type") r = some (.str t))
-    (hl : listsOk env sh st r = true) :
+    (hl : listsOk env sh r = true) :
     NoInt (namedRow env sh r t (paramsOf r) st) := by
   obtain ⟨⟨_, _, _, htr⟩, ⟨hb, hc⟩, ⟨hbs, hca⟩⟩ := shapeOk_parts r hs
   unfold listsOk at hl
   rw [ht] at hl
-  simp only [Bool.and_eq_true] at hl
-  obtain ⟨hsel, hosm⟩ := hl
+  dsimp only at hl
   unfold namedRow
   refine noInt_rej _ _ _ ?_
   refine noInt_bind _ _ (saveTo_noInt env sh r t _ hb hbs) (fun _ _ => ?_)
@@ -236,20 +220,17 @@ theorem namedRow_noInt (env : Env) (sh : Sheets) (r : TRow) (t : Str) (st : St)
     cases hse : env.select t with
     | some p =>
       obtain ⟨sel, ln, other⟩ := p
-      rw [hse] at hsel
-      simp only [Bool.and_eq_true, Bool.not_eq_true'] at hsel
-      exact selectRow_noInt env sh r _ sel ln other st hc hsel.1 hsel.2
+      rw [hse] at hl
+      simp only [Bool.not_eq_true'] at hl
+      exact selectRow_noInt env sh r _ sel ln other st hc hl
     | none =>
       cases hos : env.osm t with
-      | some oln =>
-        rw [hos] at hosm
-        refine osmRow_noInt sh st sh.osm oln ?_
-        cases oln <;> cases hso : sh.osm <;> simp_all
+      | some oln => exact osmRow_noInt sh st sh.osm oln
       | none => exact questionRow_noInt env r t _ st hc htr
 
 theorem typedRow_noInt (env : Env) (sh : Sheets) (r : TRow) (t : Str) (st : St)
     (hs : shapeOk r = true) (ht : lookup (k "type") r = some (.str t))
-    (hl : listsOk env sh st r = true) :
+    (hl : listsOk env sh r = true) :
     NoInt (typedRow env sh r t st) := by
   obtain ⟨⟨_, _, hp, _⟩, ⟨hb, _⟩, _⟩ := shapeOk_parts r hs
   unfold typedRow
@@ -265,7 +246,7 @@ theorem typedRow_noInt (env : Env) (sh : Sheets) (r : TRow) (t : Str) (st : St)
     exact namedRow_noInt env sh r t st hs ht hl
 
 theorem rowBody_noInt (env : Env) (sh : Sheets) (r : TRow) (st : St)
-    (hs : shapeOk r = true) (hl : listsOk env sh st r = true) :
+    (hs : shapeOk r = true) (hl : listsOk env sh r = true) :
     NoInt (rowBody env sh r st) := by
   have hty := (shapeOk_parts r hs).1.2.1
   unfold rowBody
@@ -285,7 +266,7 @@ theorem rowBody_noInt (env : Env) (sh : Sheets) (r : TRow) (st : St)
 /-- **no internal exception in one row of the loop**, for every environment of total checks, every sheet
     context and every loop state, outside the open crash classes -/
 theorem rowStep_no_internal (env : Env) (sh : Sheets) (r : TRow) (st : St)
-    (h : rowGuard env sh st r = true) : NoInt (rowStep env sh r st) := by
+    (h : rowGuard env sh r = true) : NoInt (rowStep env sh r st) := by
   unfold rowGuard at h
   simp only [Bool.and_eq_true] at h
   obtain ⟨⟨hd, hs⟩, hl⟩ := h
@@ -293,25 +274,23 @@ theorem rowStep_no_internal (env : Env) (sh : Sheets) (r : TRow) (st : St)
   refine noInt_bind _ _ (strCell_noInt _ _ r "disabled" hd) (fun _ _ => ?_)
   exact noInt_ite (noInt_ok _) (rowBody_noInt env sh _ st hs hl)
 
-/-- **no internal exception in the whole row loop** (any number of rows), under the guard evaluated along
-    the run -/
+/-- **no internal exception in the whole row loop** (any number of rows, any starting state), when every row
+    satisfies the guard -/
 theorem rowLoop_no_internal (env : Env) (sh : Sheets) : ∀ (rows : List TRow) (st : St),
-    sheetGuard env sh rows st = true → NoInt (rowLoop env sh rows st) := by
+    sheetGuard env sh rows = true → NoInt (rowLoop env sh rows st) := by
   intro rows
   induction rows with
   | nil => intro st _; exact noInt_ok _
   | cons r rs ih =>
     intro st h
     unfold sheetGuard at h
-    simp only [Bool.and_eq_true] at h
+    simp only [List.all_cons, Bool.and_eq_true] at h
     unfold rowLoop
-    refine noInt_bind _ _ (rowStep_no_internal env sh r st h.1) (fun st' hst => ?_)
-    have h2 := h.2
-    rw [hst] at h2
-    exact ih st' h2
+    refine noInt_bind _ _ (rowStep_no_internal env sh r st h.1) (fun st' _ => ?_)
+    exact ih st' h.2
 
 theorem sheet_no_internal (env : Env) (sh : Sheets) (rows : List TRow)
-    (h : sheetGuard env sh rows {} = true) : NoInt (sheet env sh rows) := by
+    (h : sheetGuard env sh rows = true) : NoInt (sheet env sh rows) := by
   unfold sheet
   exact noInt_bind _ _ (rowLoop_no_internal env sh rows {} h) (fun _ _ => rejectIf_noInt _ _)
 
@@ -341,11 +320,11 @@ def goodSheet : List TRow :=
    [cs "type" "osm b", cs "name" "o", cs "label" "O"],
    [cs "type" "calculate", cs "name" "c", cd "bind" [cs "calculate" "1+1"]]]
 
-example : sheetGuard stdEnv sh0 goodSheet {} = true := by decide +kernel
+example : sheetGuard stdEnv sh0 goodSheet = true := by decide +kernel
 example : (match sheet stdEnv sh0 goodSheet with | .ok () => true | _ => false) = true := by decide +kernel
 
 -- F14-header-shape: plain `bind`; `parameters::x`; `disabled::x`; `type::x`; `save_to::x`; `trigger::x`
-example : rowGuard stdEnv sh0 {} [cs "type" "text", cs "name" "a", cs "bind" "x"] = false := by decide +kernel
+example : rowGuard stdEnv sh0 [cs "type" "text", cs "name" "a", cs "bind" "x"] = false := by decide +kernel
 example : isInternal "AttributeError" "entities_parsing.py:validate_entity_saveto"
     (rowStep stdEnv sh0 [cs "type" "text", cs "name" "a", cs "bind" "x"] {}) = true := by decide +kernel
 example : isInternal "AttributeError" "parameters_generic.py:parse"
@@ -367,12 +346,16 @@ example : isInternal "KeyError" "xls2json.py:add_choices_info_to_question"
 example : isInternal "TypeError" "xls2json.py:workbook_to_json"
     (rowStep stdEnv sh0 [cs "type" "select_one l", cs "name" "s", cs "label" "S", cs "control" "x"]
       { stack := [.group], tableList := .pending }) = true := by decide +kernel
--- F44-table-list-unlisted-select
-example : isInternal "KeyError" "xls2json.py:workbook_to_json"
+-- the former F44 / F13-osm-unlisted witnesses: located rejections now, and inside the guard
+def isReject (w : String) : M St → Bool
+  | .error (.reject w') => w' == w
+  | _ => false
+example : isReject "table-list without choice list"
     (rowStep stdEnv sh0 [cs "type" "select_one_from_file f.csv", cs "name" "ff", cs "label" "F"]
       { stack := [.group], tableList := .pending }) = true := by decide +kernel
--- F13-osm-unlisted
-example : isInternal "TypeError" "xls2json.py:workbook_to_json"
+example : isReject "list not in osm sheet"
     (rowStep stdEnv sh0 [cs "type" "osm nolist", cs "name" "o", cs "label" "O"] {}) = true := by decide +kernel
+example : rowGuard stdEnv sh0 [cs "type" "osm nolist", cs "name" "o", cs "label" "O"] = true ∧
+    rowGuard stdEnv sh0 [cs "type" "select_one_from_file f.csv", cs "name" "ff", cs "label" "F"] = true := by decide +kernel
 
 end Pyxv.RowLoop
